@@ -519,6 +519,45 @@ def run_objects(desc):
                                            'problem': 'changing the lists returned by translate() changes what another call with the same arguments returns'},
                                           bucket=('translate-owned',))
     out.nontrivial(('translate-owned', ntr))
+    # descriptors: a lazy iglob(dir_fd=...) that is only partly consumed must not touch descriptors the caller opens in the meantime, and
+    # two interleaved lazy crawls over descriptors do not disturb each other
+    with FC.built_tree(TREE) as (root, _r):
+        want_top = sorted(G.glob('*', root_dir=root))
+        want_all = sorted(G.glob('**/*', flags=G.GLOBSTAR, root_dir=root))
+        for first_n in (1, 2, 5):
+            fd_a = os.open(root, os.O_RDONLY)
+            fd_b = fd_c = None
+            try:
+                it = G.iglob('**/*', flags=G.GLOBSTAR, dir_fd=fd_a)
+                got = [next(it) for _ in range(min(first_n, len(want_all)))]
+                fd_b = os.open(root, os.O_RDONLY)          # gets the lowest free number - one the crawl may have used and closed
+                it2 = G.iglob('**/*', flags=G.GLOBSTAR, dir_fd=fd_b)
+                got2 = [next(it2)]
+                fd_c = os.open(root, os.O_RDONLY)
+                got += list(it)
+                got2 += list(it2)
+                out.evaluations += 3
+                problems = []
+                for label, fd_ in (('second', fd_b), ('third', fd_c)):
+                    try:
+                        os.fstat(fd_)
+                        if sorted(G.glob('*', dir_fd=fd_)) != want_top:
+                            problems.append('glob over the %s descriptor the caller opened during a lazy crawl differs' % label)
+                    except OSError:
+                        problems.append('the %s descriptor the caller opened during a lazy crawl was closed by it' % label)
+                if sorted(got) != want_all or sorted(got2) != want_all:
+                    problems.append('interleaved lazy crawls over descriptors return other results than a crawl alone')
+                for pr in problems:
+                    out.violation({'call': 'iglob(dir_fd=...) consumed lazily', 'taken_before_the_caller_opened_descriptors': first_n, 'problem': pr},
+                                  bucket=('descriptors', pr[:30]))
+            finally:
+                for fd_ in (fd_a, fd_b, fd_c):
+                    if fd_ is not None:
+                        try:
+                            os.close(fd_)
+                        except OSError:
+                            pass
+        out.nontrivial(('descriptors', len(want_all)))
     # a call that is refused (pattern limit) leaves nothing behind: the same text asked again with room to spare is answered as in a
     # fresh interpreter that never saw the refused call
     refused = 0
